@@ -1993,10 +1993,21 @@ class Evaluator:
         return cs, inst, idmap, qual
 
     def _fold_records(self, t):
-        """After a substitution: Rec(a, b).field -> a / b and Rec(a, b)[i] -> the i-th field, for NamedTuple records."""
+        """After a substitution: Rec(a, b).field -> a / b and Rec(a, b)[i] -> the i-th field, for NamedTuple records;
+        a call whose function became known (an attrgetter, a lambda, a new pure helper passed as an argument) is applied."""
         if not isinstance(t, tuple) or not t:
             return t
         t = tuple(self._fold_records(c) if isinstance(c, tuple) else c for c in t)
+        if isinstance(t[0], str) and t[0] == "call" and not t[3] and not any(a[0] == "star" for a in t[2]):
+            fn = t[1]
+            if fn[0] == "lambda" or (fn[0] == "call" and fn[1] in (("ext", "operator.attrgetter"), ("ext", "operator.itemgetter"))):
+                v = self._apply_fn(fn, list(t[2]))
+                if not (v[0] == "call" and v[1] == fn):
+                    return v
+            elif fn[0] == "global" and fn[2] == "func" and self._inline_target(fn) is not None:
+                v = expand_pure_calls(t, _SummariesShim(self), None, self.module)
+                if v != t:
+                    return v
         if isinstance(t[0], str) and t[0] in ("attr", "sub") and t[1][0] == "call" and t[1][1][0] == "global" and t[1][1][2] == "class":
             if t[0] == "attr":
                 v = self._record_get(t[1], attr=t[2]) if self._is_record(t[1]) else None
@@ -2045,7 +2056,9 @@ class Evaluator:
             return None
         cs, inst, idmap, qual = prep
         if cs.is_generator and not yield_from:
-            return None  # a helper generator is only spliced where it is consumed (yield from / a for loop)
+            # a helper generator is spliced where it is consumed (yield from / a for loop); elsewhere (next(...), list(...))
+            # a simple one -- a single filtered loop around one yield -- is the generator expression it abbreviates
+            return self._generator_as_genexp(cs, inst, idmap, qual, live)
         self._register_inlined(cs, inst, idmap)
         for e in cs.events:
             if e.kind == "return":
@@ -2088,6 +2101,28 @@ class Evaluator:
 
             v = retype(v)
         return v
+
+    def _generator_as_genexp(self, cs, inst, idmap, qual, live):
+        ys = cs.yields
+        if len(ys) != 1 or len(ys[0].loops) != 1 or ys[0].term[0] == "yieldfrom":
+            return None
+        y = ys[0]
+        lid0 = y.loops[0]
+        if cs.loops[lid0].kind != "for" or any(e.kind not in ("call", "continue", "yield", "return") for e in cs.events):
+            return None
+        if any(e.kind == "call" and lid0 not in e.loops for e in cs.events) or any(e.idx > y.idx and e.kind == "call" for e in cs.events):
+            return None
+        self._register_inlined(cs, inst, idmap)
+        nl = idmap[lid0]
+        self.loops[nl].kind = "comp"
+        for e in cs.events:
+            if e.kind == "call":
+                self._reemit(e, live, inst, idmap, qual)
+        conj = list(conjuncts(inst(y.live)))
+        conds = tuple(c for c in conj if c != ("inloop", nl))
+        self.loops[nl].conds = conds
+        self.inlined.append(qual)
+        return ("comp", "gen", inst(y.term), ((nl, self.loops[nl].iter, conds),))
 
     def _splice_generator(self, call_term, live, depth=0):
         """Open up `helper(...)`, a new generator function with a single `yield v` / `yield from xs` inside its loop(s).
@@ -2430,6 +2465,22 @@ def callkw(t) -> Dict[str, tuple]:
             if a[0] != "star":
                 kw.setdefault(nm, a)
     return kw
+
+
+class _SummariesShim:
+    """the slice of the Summaries interface expand_pure_calls needs, backed by an evaluator (no cache)"""
+
+    def __init__(self, ev: "Evaluator"):
+        self.ev = ev
+
+    def of_method(self, ci, meth):
+        return None
+
+    def of_func(self, modname, fname):
+        m, fn = self.ev.index.need_func(modname, fname)
+        sub = Evaluator(self.ev.index, m, fn, f"{modname}:{fname}", None)
+        sub.inline_stack = self.ev.inline_stack + (f"{modname}:{fname}",)
+        return sub.run()
 
 
 def fold_sub(t):
